@@ -5,7 +5,7 @@ package resources
 // C13: the CRDT resource delivers every committed update and loses none.
 // Two REAL crdt resources (NewCRDT with GCounter: listener, rpc server, runBroadcasts, merger) over the engine's
 // net/rpc model. The environment is a symbolic event sequence: local write / commit / abort at A, broadcast tick at
-// A or B; the system settles (merger, RPC handlers) after every event.
+// A or B, or a tick at A that overlaps A's commit; the system settles (merger, RPC handlers) after every event.
 
 import (
 	"github.com/DistCompiler/pgo/distsys"
@@ -45,7 +45,7 @@ func HarnessC13_Events() {
 	const steps = 6
 	for step := 0; step < steps; step++ {
 		ev := verifNondetInt("event")
-		verifAssume(ev >= 0 && ev < 5)
+		verifAssume(ev >= 0 && ev < 6)
 		switch ev {
 		case 0: // A writes inside a section
 			inc := verifNondetInt32("inc")
@@ -68,6 +68,15 @@ func HarnessC13_Events() {
 			verifFireTimerN("Ticker", 0)
 		case 4: // broadcast tick at B
 			verifFireTimerN("Ticker", 1)
+		case 5: // broadcast tick at A whose round trip is still in flight when A's open section commits
+			verifAssume(inSection)
+			verifFireTimerN("Ticker", 0)
+			for y, n := 0, 1+verifChoose("inflight", 4); y < n; y++ {
+				verifYield()
+			}
+			a.Commit(iface)
+			committedA += pendingA
+			pendingA, inSection = 0, false
 		}
 		verifQuiesce()
 		// safety, after every event
